@@ -30,6 +30,7 @@ def run(repo: Repo, tier: str, res: CheckResult, seed: int = 0) -> None:
     ordering_rule(repo, m, res)
     eq_hash_rule(repo, m, res)
     union_pipeline_rule(repo, m, res)
+    implicit_params_rule(repo, res)
     res.assumptions = list(ASSUMPTIONS)
 
 
@@ -83,7 +84,7 @@ def ted_rule(repo: Repo, m: ModuleInfo, res: CheckResult) -> None:
 
 
 # ------------------------------------------------------------------------------------------ (2) ordering
-def ordering_rule(repo: Repo, m: ModuleInfo, res: CheckResult) -> None:
+def ordering_rule(repo: Repo, m: ModuleInfo, res: CheckResult, prop: str = "C15") -> None:
     for cname in ("_UnionNormType", "_LiteralNormType"):
         ci = m.classes.get(cname)
         if ci is None:
@@ -100,7 +101,7 @@ def ordering_rule(repo: Repo, m: ModuleInfo, res: CheckResult) -> None:
                     if isinstance(a0, ast.Call) and norm(a0.func) in ("tuple", "sorted") and "key" in norm(a0):
                         ok = True
         if not ok:
-            res.add(Finding("C15", "ORDER.args-not-ordered", m.rel, f"{cname}.__init__",
+            res.add(Finding(prop, "ORDER.args-not-ordered", m.rel, f"{cname}.__init__",
                             norm(init) [:120] if init is not None else "no __init__",
                             f"{cname} must hand ordered arguments to the base constructor: equal unions/literals written "
                             "in different order would otherwise compare and hash differently",
@@ -109,8 +110,54 @@ def ordering_rule(repo: Repo, m: ModuleInfo, res: CheckResult) -> None:
         res.evaluated(f"order:{cname}._order_args", True)
         if oa is None or not any(isinstance(c, ast.Call) and ((isinstance(c.func, ast.Attribute) and c.func.attr == "sort")
                                                               or norm(c.func) == "sorted") for c in ast.walk(oa)):
-            res.add(Finding("C15", "ORDER.args-not-ordered", m.rel, f"{cname}._order_args", "no sort",
+            res.add(Finding(prop, "ORDER.args-not-ordered", m.rel, f"{cname}._order_args", "no sort",
                             "_order_args no longer sorts its arguments", oa.lineno if oa else ci.node.lineno))
+    # the ordering key is a function of the type alone: origin + the same key applied recursively to every argument;
+    # leaves are keyed with repr() (str() conflates 1 and '1'), nothing spelling-dependent (source, repr of norm types)
+    for cname in ("_UnionNormType", "_LiteralNormType"):
+        ci = m.classes[cname]
+        mo = ci.methods.get("_make_orderable")
+        res.evaluated(f"order:{cname}._make_orderable", True)
+        if mo is None:
+            raise AnalysisError(f"anchor vanished: {cname}._make_orderable")
+        obj = mo.args.args[1].arg
+        problems = []
+        rets = [r for r in ast.walk(mo) if isinstance(r, ast.Return) and r.value is not None]
+        if cname == "_UnionNormType":
+            norm_rets = []
+            for node in ast.walk(mo):
+                if isinstance(node, ast.If) and f"isinstance({obj}, BaseNormType)" in norm(node.test):
+                    norm_rets = [r for s in node.body for r in ast.walk(s) if isinstance(r, ast.Return)]
+            if not norm_rets:
+                problems.append("no branch for normalised types")
+            for r in norm_rets:
+                txt = norm(r.value)
+                if f"{obj}.origin" not in txt:
+                    problems.append("the key of a normalised type does not include its origin")
+                recursive = any(isinstance(c, ast.Call) and norm(c.func) == "self._make_orderable" for c in ast.walk(r.value))
+                over_args = any(isinstance(g, ast.comprehension) and norm(g.iter) == f"{obj}.args" for g in ast.walk(r.value))
+                if not (recursive and over_args):
+                    problems.append("the key of a normalised type is not the same key applied recursively to every "
+                                    "argument (members with equal origin tie and keep the order they were written in)")
+                for fv in ast.walk(r.value):
+                    if isinstance(fv, ast.FormattedValue) and norm(fv.value) in (obj, f"{obj}.args", f"{obj}.source"):
+                        problems.append(f"the key formats `{norm(fv.value)}` directly: repr/str of normalised types depends "
+                                        "on how the hint was spelled (source)")
+                if ".source" in txt or "_source" in txt:
+                    problems.append("the key depends on the source spelling")
+        leaf = [r for r in rets if isinstance(r.value, ast.Call) and norm(r.value.func) in ("str", "repr")
+                and r.value.args and norm(r.value.args[0]) == obj]
+        leaf += [r.value.orelse for r in rets if isinstance(r.value, ast.IfExp)]  # type: ignore[misc]
+        for l in leaf:
+            e = l.value if isinstance(l, ast.Return) else l
+            if isinstance(e, ast.Call) and norm(e.func) == "str" and e.args and norm(e.args[0]) == obj:
+                problems.append(f"leaf values are keyed with str({obj}): 1 and '1' (or 0 and False inside nested literals) "
+                                "tie, so the order of such members depends on the order they were written in")
+        if problems:
+            res.add(Finding(prop, "ORDER.key-not-canonical", m.rel, f"{cname}._make_orderable", "; ".join(sorted(set(problems)))[:300],
+                            "the stable-ordering key of union/literal members is not a function of the type alone: "
+                            + "; ".join(sorted(set(problems))) + " -- Union[A, B] and Union[B, A] normalise to different, "
+                            "unequal forms", mo.lineno))
     # nothing writes _args outside _BasicNormType.__init__
     n = 0
     for node in ast.walk(m.tree):
@@ -122,7 +169,7 @@ def ordering_rule(repo: Repo, m: ModuleInfo, res: CheckResult) -> None:
                     q = m.qualname(node)
                     res.evaluated(f"order:_args-store:{q}", True)
                     if q not in ("_BasicNormType.__init__", "NormTypeAlias.__init__"):
-                        res.add(Finding("C15", "ORDER.args-bypass", m.rel, q, norm(node),
+                        res.add(Finding(prop, "ORDER.args-bypass", m.rel, q, norm(node),
                                         "`_args` of a normalised type is replaced after construction, bypassing the "
                                         "ordering/typing done by the constructors", node.lineno))
     res.count("ORDER._args-stores", n, 2)
@@ -237,3 +284,71 @@ def union_pipeline_rule(repo: Repo, m: ModuleInfo, res: CheckResult) -> None:
         res.add(Finding("C15", "UNION.pipeline-order", m.rel, "TypeNormalizer._norm_union", "return _UnionNormType(...)",
                         "the union is not built from the merged arguments", fn.lineno))
     res.count("UNION.pipeline-links", len(consumed), 3)
+
+
+# ------------------------------------------------------------------------------------------ (5) implicit parameters
+def implicit_params_rule(repo: Repo, res: CheckResult) -> None:
+    """Bare generics get: union of constraints | Any when there is no bound | the bound; forward references inside
+    bounds/constraints are evaluated in the module of the TypeVar itself (as the normaliser does)."""
+    m = repo.mod("type_tools/implicit_params")
+    ci = m.classes.get("ImplicitParamsGetter")
+    if ci is None or "_derive_default" not in ci.methods:
+        raise AnalysisError("anchor vanished: ImplicitParamsGetter._derive_default")
+    fn = ci.methods["_derive_default"]
+    from ..paths import enumerate_paths
+    tv = next((a.arg for a in fn.args.args[1:] if "var" in a.arg), fn.args.args[-1].arg)
+    n = 0
+    seen = {"constraints": False, "any": False, "bound": False}
+    for path in enumerate_paths(fn.body):
+        if path[-1][0] != "return":
+            continue
+        n += 1
+        conds = [(norm(s[1]), s[2]) for s in path if s[0] == "test"]
+        rv = norm(path[-1][1].value)
+        res.evaluated(f"implicit:{' and '.join(('' if v else 'not ') + c for c, v in conds)}", True)
+        if any(c == f"{tv}.__constraints__" and v for c, v in conds):
+            seen["constraints"] = True
+            if not (rv.startswith("create_union(") and f"{tv}.__constraints__" in rv):
+                res.add(Finding("C15", "IMPLICIT.constraints", m.rel, "ImplicitParamsGetter._derive_default", rv[:120],
+                                "a constrained TypeVar of a bare generic must become the union of all its constraints",
+                                path[-1][1].lineno))
+        elif any(c == f"{tv}.__bound__ is None" and v for c, v in conds):
+            seen["any"] = True
+            if rv not in ("Any", "typing.Any"):
+                res.add(Finding("C15", "IMPLICIT.unbound-is-any", m.rel, "ImplicitParamsGetter._derive_default", rv[:120],
+                                "an unbound TypeVar of a bare generic must become Any", path[-1][1].lineno))
+        elif any(c == f"{tv}.__bound__ is None" and not v for c, v in conds):
+            seen["bound"] = True
+            if f"{tv}.__bound__" not in rv:
+                res.add(Finding("C15", "IMPLICIT.bound", m.rel, "ImplicitParamsGetter._derive_default", rv[:120],
+                                "a bound TypeVar of a bare generic must become its bound", path[-1][1].lineno))
+    if not all(seen.values()):
+        res.add(Finding("C15", "IMPLICIT.decision-table", m.rel, "ImplicitParamsGetter._derive_default",
+                        ", ".join(k for k, v in seen.items() if not v),
+                        "the decision table constraints / no bound / bound is incomplete", fn.lineno))
+    # namespace of forward references: the TypeVar's own module
+    for mod_short, cls_name in (("type_tools/implicit_params", "ImplicitParamsGetter"),):
+        mm = repo.mod(mod_short)
+        cc = mm.classes[cls_name]
+        calls = [c for f in cc.methods.values() for c in ast.walk(f) if isinstance(c, ast.Call) and norm(c.func) == "eval_forward_ref"]
+        for c in calls:
+            n += 1
+            res.evaluated(f"implicit:namespace:{norm(c)}", True)
+            ns = c.args[0] if c.args else None
+            # expand one level of local helper
+            txt = norm(ns) if ns is not None else ""
+            if isinstance(ns, ast.Call) and isinstance(ns.func, ast.Attribute) and ns.func.attr in cc.methods:
+                txt = norm(cc.methods[ns.func.attr])
+            mods = [norm(s.slice) for s in ast.walk(ast.parse(txt)) if isinstance(s, ast.Subscript) and norm(s.value) == "sys.modules"]
+            extra = "getattr(" in txt or " or " in txt
+            if len(mods) != 1 or not mods[0].endswith(".__module__") or "var" not in mods[0] or extra:
+                res.add(Finding("C15", "IMPLICIT.forward-ref-namespace", mm.rel, f"{cls_name}.{mm.qualname(c).split('.')[-1]}",
+                                txt[:160],
+                                "forward references in TypeVar bounds/constraints must be evaluated in the module of the "
+                                "TypeVar itself (the normaliser does the same): a generic class defined elsewhere would "
+                                "resolve the name to an unrelated object or fail", c.lineno))
+    nt = repo.mod(NT).classes["TypeNormalizer"].methods.get("_norm_type_var")
+    if nt is None or "self._with_module_namespace(origin.__module__)" not in norm(nt):
+        res.add(Finding("C15", "IMPLICIT.forward-ref-namespace", repo.mod(NT).rel, "TypeNormalizer._norm_type_var", "namespace",
+                        "TypeVar limits must be normalised in the TypeVar's module namespace", nt.lineno if nt else 0))
+    res.count("IMPLICIT.obligations", n, 4)
